@@ -69,7 +69,7 @@ Qed.
 Lemma expand_env_tok_dword W (c : str) : ~ In 36 c -> expand_env_tok W (TNone, dword c) = (TNone, dword c).
 Proof.
   intros H. unfold expand_env_tok. cbn [fst snd]. rewrite (expand_env_once_dword W c H).
-  destruct (env_in_token (dword c)); reflexivity.
+  destruct (env_in_tagged_token (dword c) _); reflexivity.
 Qed.
 
 Lemma expand_env_dword W (cmd0 c : str) :
@@ -77,7 +77,7 @@ Lemma expand_env_dword W (cmd0 c : str) :
   expand_env W [(TNone, cmd0); (TNone, dword c)] = [(TNone, cmd0); (TNone, dword c)].
 Proof.
   intros H0 Hc. rewrite expand_env_map. cbn [map]. rewrite (expand_env_tok_dword W c Hc).
-  unfold expand_env_tok. cbn [fst snd]. rewrite (env_in_token_no_dollar cmd0 H0). reflexivity.
+  unfold expand_env_tok. cbn [fst snd]. rewrite (tagged_gate_no_dollar cmd0 _ H0). reflexivity.
 Qed.
 
 (* ------------------------------------------------------------------ 4: brace and glob see the word BEFORE the substitution *)
